@@ -3,6 +3,7 @@ package checks
 import (
 	"errors"
 	"fmt"
+	"math"
 	"os"
 	"os/exec"
 	"path/filepath"
@@ -227,8 +228,72 @@ func buildC15(tier string) *core.Plan {
 				c15CLI(c, base, target, fm[j%3], fm[(j/3)%3], fm[j/9])
 			}
 		}}
+	// inputs that use references: bkld evaluates both files first (each against itself)
+	refBases := []any{
+		map[string]any{"id": 1, "a": map[string]any{"v": 2}, "k": 1},
+		map[string]any{"id": 1, "a": map[string]any{"v": 2}, "c": "$merge:a"},
+		map[string]any{"id": 1, "a": map[string]any{"v": 1}, "b": map[string]any{"v": 1}},
+	}
+	refTargets := []any{
+		map[string]any{"id": 1, "a": map[string]any{"v": 1}, "b": "$merge:a"},
+		map[string]any{"id": 1, "a": map[string]any{"v": 1}, "b": map[string]any{"$replace": []any{map[string]any{"id": 1}, "a"}}},
+		map[string]any{"id": 1, "a": map[string]any{"v": 1}, "b": map[string]any{"$merge": map[string]any{"$match": map[string]any{"id": 1}, "$path": "a"}, "z": 1}},
+		map[string]any{"id": 1, "l": []any{1, map[string]any{"$merge": "m"}}, "m": []any{2}},
+		map[string]any{"id": 1, "a": map[string]any{"v": 3}, "t": `$"{a.v}-{id}"`},
+		map[string]any{"id": 1, "a": map[string]any{"v": 2}, "k": 1},
+	}
+	nrt := int64(len(refTargets))
+	refSpace := core.Space{Name: "cli-inputs-with-references", N: int64(len(refBases)) * nrt, Chunk: 1,
+		Desc: func(i int64) any { return map[string]any{"base": refBases[i/nrt], "target": refTargets[i%nrt]} },
+		Run: func(c *core.Ctx, i int64) {
+			base, target := refBases[i/nrt], refTargets[i%nrt]
+			want, werr := evalTree(target)
+			if werr != nil || len(want) != 1 {
+				return
+			}
+			dir := scratchDir()
+			defer os.RemoveAll(dir)
+			if writeDoc(dir, "base.yaml", "yaml", base) != nil || writeDoc(dir, "target.json", "json", target) != nil {
+				return
+			}
+			os.MkdirAll(filepath.Join(dir, "out"), 0o755)
+			c.Eval()
+			c.Trans(2)
+			wit := "cli references: " + core.Canon(base) + " => " + core.Canon(target)
+			_, se, code, err := runTool(dir, "bkld", "-o", "out/layer.yaml", "base.yaml", "target.json")
+			c.Validated()
+			c.Nontrivial()
+			if err != nil || code != 0 {
+				c.Fail("cli-round-trip", "bkld-fails", "references: "+wit, se)
+				return
+			}
+			so, se, code, _ := runTool(dir, "bkl", "-f", "json", "base.yaml", "out/layer.yaml")
+			if code != 0 {
+				c.Fail("cli-round-trip", "layer-rejected", "references: "+wit, se)
+				return
+			}
+			got, perr := c14ParseText("json", so)
+			if perr != nil || !core.EqualLoose(got, want[0]) {
+				c.Outcome("CLI-NOT-REPRODUCED")
+				c.Fail("cli-round-trip", "target-not-reproduced", "references: "+wit, map[string]any{"stdout": so, "want": want[0]})
+				return
+			}
+			c.Outcome("cli-reproduced")
+		}}
+	// the same data in two formats (boundary numbers included): the layer must be empty; and edits next to such numbers
+	numBase := map[string]any{"quota": 3000000000, "sizes": []any{1, 4294967296}, "f": 0.1, "max": math.MaxInt64, "items": []any{map[string]any{"id": 5000000000}, map[string]any{"id": 1}}}
+	numTargets := []any{
+		numBase,
+		map[string]any{"quota": 3000000000, "sizes": []any{1, 4294967296}, "f": 0.1, "max": math.MaxInt64, "items": []any{map[string]any{"id": 5000000000}, map[string]any{"id": 1}}, "extra": 1},
+		map[string]any{"quota": 3000000001, "sizes": []any{1, 4294967296, 7}, "f": 0.1, "max": math.MaxInt64, "items": []any{map[string]any{"id": 5000000000}, map[string]any{"id": 1}, map[string]any{"id": 2}}},
+	}
+	numSpace := core.Space{Name: "cli-cross-format-numbers", N: int64(len(numTargets) * 27), Chunk: 1,
+		Desc: func(i int64) any { return map[string]any{"base": numBase, "target": numTargets[i/27], "formats": []string{fm[i%3], fm[(i/3)%3], fm[(i/9)%3]}} },
+		Run: func(c *core.Ctx, i int64) {
+			c15CLI(c, numBase, numTargets[i/27], fm[i%3], fm[(i/3)%3], fm[(i/9)%3])
+		}}
 	return &core.Plan{
-		Spaces: []core.Space{pairs, listPairs, cli},
+		Spaces: []core.Space{pairs, listPairs, cli, refSpace, numSpace},
 		Rule:   "every ordered pair (base, target) of map-rooted, null-free, $-free trees up to N nodes over keys {a,b,l} and scalars {1,2,x}; every pair of lists of <=2 (thorough 3) entries drawn from scalars, sub-lists and maps where one is a subset of another; CLI round trips in format mixes; non-trivial = base differs from target",
 		Assumptions: []string{"in-process runs use cmd/bkld/diff.go copied from /repo's working tree at build time (package clause rewritten, fatal() panics), driven exactly like cmd/bkld/main.go; the CLI space runs the real binaries",
 			"the emitted layer is applied as a second input (`bkl base layer`), where its $match: {} selects the base document"},
@@ -276,6 +341,8 @@ func c15CLI(c *core.Ctx, base, target any, fb, ft, fl string) {
 	wit := fmt.Sprintf("cli %s/%s/%s: %s => %s", fb, ft, fl, core.Canon(base), core.Canon(target))
 	c.Eval()
 	c.Trans(2)
+	// the output file already exists and is longer than the layer (a re-run onto the same path)
+	os.WriteFile(filepath.Join(dir, "layer."+fl), []byte(strings.Repeat("# previous layer content that must not survive\n", 30)), 0o644)
 	so, se, code, err := runTool(dir, "bkld", "-f", fl, "-o", "layer."+fl, "base."+fb, "target."+ft)
 	c.Validated()
 	if err != nil || code != 0 {
